@@ -179,6 +179,9 @@ Plan(c, qorder, due) ==
 FrameItemsAt(vis, f, off) ==
   {i \in 1..Len(vis) : ~vis[i].gone /\ vis[i].t # 0 /\ vis[i].file = f /\ vis[i].off = off /\ vis[i].vis > 0}
 
+(* what a payload of class Embeds carries: an append that was never made *)
+ForgedEntry == [k |-> "append", q |-> CHOOSE q \in Queues : TRUE, p |-> 77, batch |-> << <<999, 1>> >>]
+
 (* returns [ok, m]: an append in the past aborts open with Corruption *)
 RApply(m, en, file) ==
   CASE en.k = "pos" -> [ok |-> TRUE, m |-> IF m[en.q].a /\ Len(m[en.q].recs) = 0 /\ MemNext(m[en.q]) = en.p THEN m
@@ -204,14 +207,31 @@ RLoop(vis, files, szd, fi, blk, cur, st, m) ==
               f2 == files[fi2]
               fs == FrameItemsAt(vis, f2, b * BlockSize + c)
               st0 == IF need THEN [st EXCEPT !.corrupt = FALSE] ELSE st
-          IN IF fs = {} THEN [m |-> m, file |-> f2, off |-> b * BlockSize + c]
+              \* after a damaged length field the cursor may land INSIDE another item: the reader parses payload
+              \* bytes as a header.  st0.gmode says what they look like: "badtype" (the rest of the block is
+              \* quarantined) or "embeds" (the image of a well-formed frame carrying an entry never appended)
+              inside == {i \in 1..Len(vis) : ~vis[i].gone /\ vis[i].file = f2 /\ vis[i].off < b * BlockSize + c
+                                              /\ b * BlockSize + c < vis[i].off + vis[i].n /\ vis[i].vis > 0}
+          IN IF fs = {} /\ inside # {} /\ st0.gmode = "embeds" THEN
+                LET ra == RApply(m, ForgedEntry, st0.efile) IN
+                  IF ra.ok THEN RLoop(vis, files, szd, fi2, b, c, [within |-> FALSE, corrupt |-> TRUE, efile |-> f2, gmode |-> "none"], ra.m)
+                  ELSE [err |-> TRUE]
+             ELSE IF fs = {} /\ inside # {} THEN
+                RLoop(vis, files, szd, fi2, b, c, [within |-> FALSE, corrupt |-> TRUE, efile |-> f2, gmode |-> "none"], m)
+             ELSE IF fs = {} THEN [m |-> m, file |-> f2, off |-> b * BlockSize + c]
              ELSE LET it == vis[CHOOSE i \in fs : TRUE]
                       c2 == c + it.n
                       \* the entry's file is the reader's file BEFORE it reads the entry
-                      noRec == [within |-> FALSE, corrupt |-> FALSE, efile |-> f2]
+                      noRec == [within |-> FALSE, corrupt |-> FALSE, efile |-> f2, gmode |-> st0.gmode]
                   IN IF it.dmg = "zero" THEN [m |-> m, file |-> f2, off |-> b * BlockSize + c]   \* zeroed header: not available
                      ELSE IF it.vis < HeaderLen \/ it.dmg = "type" \/ (CrcQuarantinesBlock /\ it.dmg = "crc") THEN
                         RLoop(vis, files, szd, fi2, b, c, [noRec EXCEPT !.corrupt = TRUE], m)
+                     ELSE IF it.dmg \in {"len_badtype", "len_embeds"} THEN
+                        \* the CRC fails; the cursor moves over the DECLARED extent (or the block is quarantined)
+                        IF c + it.nlen > BlockSize
+                        THEN RLoop(vis, files, szd, fi2, b, c, [noRec EXCEPT !.corrupt = TRUE], m)
+                        ELSE RLoop(vis, files, szd, fi2, b, c + it.nlen,
+                                   [noRec EXCEPT !.gmode = IF it.dmg = "len_embeds" THEN "embeds" ELSE "badtype"], m)
                      ELSE IF it.vis < it.n \/ it.dmg = "crc" THEN
                         RLoop(vis, files, szd, fi2, b, c2, noRec, m)
                      ELSE LET isFirst == IsFirstType(it.t)
@@ -235,7 +255,7 @@ Recover(vis, ex, szd0) ==
            szd == IF OpenSizesLast THEN szd0 \cup {last} ELSE szd0
            first == files[1]
        IN IF ~(first \in szd) THEN [ok |-> FALSE]
-          ELSE LET r == RLoop(vis, files, szd, 1, 0, 0, [within |-> FALSE, corrupt |-> FALSE, efile |-> first], EmptyMem)
+          ELSE LET r == RLoop(vis, files, szd, 1, 0, 0, [within |-> FALSE, corrupt |-> FALSE, efile |-> first, gmode |-> "none"], EmptyMem)
                IN IF "err" \in DOMAIN r THEN [ok |-> FALSE]
                   ELSE [ok |-> TRUE, m |-> r.m, files |-> ex, file |-> r.file, off |-> r.off, fresh |-> FALSE, szd |-> szd]
 
@@ -323,7 +343,7 @@ StepWrite ==
          tot == Total - removedOs
          os0 == osCnt - removedOs
          it == [file |-> EFile(x), off |-> EOff(x), n |-> sz, t |-> EType(x), entry |-> Len(entries),
-                vis |-> sz, sy |-> FALSE, gone |-> FALSE, dmg |-> "none"]
+                vis |-> sz, sy |-> FALSE, gone |-> FALSE, dmg |-> "none", nlen |-> sz]
      IN /\ items' = Append(base, it)
         /\ osCnt' = IF direct THEN tot + sz ELSE IF flushFirst THEN tot ELSE os0
         /\ buffered' = IF direct THEN 0 ELSE b1 + sz
@@ -501,14 +521,18 @@ Restart ==
 (* Damage at rest (C08 / C09 / C12 at the design level): after a clean close, a frame's payload or    *)
 (* checksum is altered ("crc": the frame alone is dropped), its type byte is made invalid ("type":   *)
 (* the rest of its block is quarantined) or its header is zeroed ("zero": replay stops there).       *)
-(* A damaged length field is not modelled (where the reader resynchronises depends on payload bytes; *)
-(* that is the known finding D4 and is decided on the real code).                                    *)
+(* "len_badtype" / "len_embeds": the length field is altered: the CRC fails and the reader            *)
+(* resynchronises at the declared extent - on a later frame, or INSIDE payload bytes, which then look *)
+(* like an invalid header (badtype) or like a well-formed frame carrying a forged entry (embeds: the  *)
+(* payload class of the known finding D4; MC_Damage_D4_selftest.cfg shows TLC reproduces it).         *)
 Damage ==
   /\ mode = "Closed" /\ clean /\ ndamage < MaxDamage
   /\ \E i \in 1..Len(items), kind \in DamageKinds :
        /\ items[i].t # 0 /\ ~items[i].gone /\ items[i].vis = items[i].n /\ items[i].dmg = "none"
        /\ items[i].file \in exists
-       /\ items' = [items EXCEPT ![i].dmg = kind]
+       /\ IF kind \in {"len_badtype", "len_embeds"}
+          THEN \E nl \in (HeaderLen..(BlockSize + 1)) \ {items[i].n} : items' = [items EXCEPT ![i].dmg = kind, ![i].nlen = nl]
+          ELSE items' = [items EXCEPT ![i].dmg = kind]
        /\ hits' = hits \cup {items[i].entry}
        /\ dkinds' = dkinds \cup {kind}
   /\ ndamage' = ndamage + 1 /\ damaged' = TRUE
